@@ -708,6 +708,17 @@ pub fn c05_search(seed: u64, n: u64) -> i32 {
             text.push_str(t); text.push_str(wt);
             for c in combos { want.insert(c.to_string(), w); }
         }
+        if rng.below(8) == 0 {
+            // the whole deck first (all pockets, all suited and offsuit rows), then the list: later tokens must still win
+            let mut full = String::from("22+");
+            for h in 0..12 { full.push_str(&format!(",{}2s+,{}2o+", rc(h), rc(h))); }
+            for (t0, combos) in shapes.iter().take(0) { let _ = (t0, combos); }
+            let mut w2: std::collections::HashMap<String, f32> = std::collections::HashMap::new();
+            for rp in all_rank_pairs() { for c in combos_fp(rp) { w2.insert(c.to_string(), 1.0); } }
+            for (k, v) in want.iter() { w2.insert(k.clone(), *v); }
+            want = w2;
+            text = format!("{},{}", full, text);
+        }
         let r = std::panic::catch_unwind(|| text.parse::<HandRange>());
         let ok = match r {
             Ok(Ok(range)) => {
@@ -871,6 +882,7 @@ fn check_c17_runs(entries: &Vec<(CardPair, f32)>, text: &str) -> Result<(), Stri
     let mut last_key: Option<(usize, usize, usize, usize)> = None;
     let mut covered = std::collections::HashSet::new();
     for tok in text.split(',') {
+        let tok = tok.trim();   // blanks are not part of the notation (the parser ignores them)
         let (body, w) = match tok.find(':') { Some(i) => (&tok[..i], tok[i + 1..].parse::<f32>().map_err(|_| format!("weight of {:?} unreadable", tok))?), None => (tok, 1.0f32) };
         let key = match read_rp_token(body)? {
             None => (2, 0, 0, 0),
@@ -974,7 +986,8 @@ pub fn c06_search(seed: u64, n: u64) -> i32 {
         for _ in 0..k {
             let start = rng.below(rps.len() as u64) as usize;
             let len = 1 + rng.below(5) as usize;
-            let w = ws[rng.below(ws.len() as u64) as usize];
+            // a weight from the pool, or any f32 in [0, 1) (8-9 significant digits when printed)
+            let w = if rng.below(3) == 0 { (rng.below(1 << 24) as f32) / ((1u32 << 24) as f32) } else { ws[rng.below(ws.len() as u64) as usize] };
             for rp in rps.iter().skip(start).take(len) {
                 let partial = rng.below(5) == 0;
                 for c in combos_fp(*rp) {
@@ -991,6 +1004,240 @@ pub fn c06_search(seed: u64, n: u64) -> i32 {
         }
     }
     println!("SEARCH tried={} found=0", tried);
+    0
+}
+
+// ---------------------------------------------------------------------------------------------
+// C01 / C07 oracle from first principles: class of the best of the 21 five-card sub-hands, numbered 1..7462
+fn binom(n: usize, k: usize) -> usize { if k > n { 0 } else { let mut r = 1usize; for i in 0..k { r = r * (n - i) / (i + 1); } r } }
+
+/// rank of the ascending tuple t among the k-subsets of 0..n in lexicographic order
+fn lexrank(t: &[usize], n: usize) -> usize {
+    let k = t.len();
+    let mut r = 0; let mut prev: isize = -1;
+    for (i, &x) in t.iter().enumerate() {
+        for y in ((prev + 1) as usize)..x { r += binom(n - y - 1, k - i - 1); }
+        prev = x as isize;
+    }
+    r
+}
+
+fn straight_top(t: &[usize]) -> Option<usize> {
+    // t ascending rank codes (0 = ace): five consecutive codes, or the wheel A-5-4-3-2 = (0, 9, 10, 11, 12)
+    if t.len() == 5 && t[4] - t[0] == 4 && t.windows(2).all(|w| w[1] == w[0] + 1) { return Some(t[0]); }
+    if t == [0, 9, 10, 11, 12] { return Some(9); }
+    None
+}
+
+fn hc_idx(t: &[usize]) -> usize {
+    // index among the 1277 non-straight rank sets: lexrank minus the straights that order before t
+    let mut straights: Vec<Vec<usize>> = (0..9).map(|s| (s..s + 5).collect()).collect();
+    straights.push(vec![0, 9, 10, 11, 12]);
+    lexrank(t, 13) - straights.iter().filter(|s| s.as_slice() < t).count()
+}
+
+fn reindex(x: usize, removed: &[usize]) -> usize { x - removed.iter().filter(|r| **r < x).count() }
+
+pub fn class5_fp(cards: &[Card]) -> u16 {
+    let code = |c: &Card| RANKS.iter().position(|r| r == c.rank()).unwrap();
+    let flush = cards.iter().all(|c| c.suit() == cards[0].suit());
+    let mut q = [0usize; 13];
+    for c in cards { q[code(c)] += 1; }
+    let of = |m: usize| -> Vec<usize> { (0..13).filter(|r| q[*r] == m).collect() };
+    let (four, three, two, one) = (of(4), of(3), of(2), of(1));
+    let v = if four.len() == 1 {
+        11 + 12 * four[0] + reindex(one[0], &four)
+    } else if three.len() == 1 && two.len() == 1 {
+        167 + 12 * three[0] + reindex(two[0], &three)
+    } else if three.len() == 1 {
+        let ks: Vec<usize> = one.iter().map(|k| reindex(*k, &three)).collect();
+        1610 + 66 * three[0] + lexrank(&ks, 12)
+    } else if two.len() == 2 {
+        2468 + 11 * lexrank(&two, 13) + reindex(one[0], &two)
+    } else if two.len() == 1 {
+        let ks: Vec<usize> = one.iter().map(|k| reindex(*k, &two)).collect();
+        3326 + 220 * two[0] + lexrank(&ks, 12)
+    } else {
+        match (straight_top(&one), flush) {
+            (Some(t), true) => 1 + t,
+            (Some(t), false) => 1600 + t,
+            (None, true) => 323 + hc_idx(&one),
+            (None, false) => 6186 + hc_idx(&one),
+        }
+    };
+    v as u16
+}
+
+pub fn category_fp(class: u16) -> &'static str {
+    match class { 1..=10 => "StraightFlush", 11..=166 => "Quads", 167..=322 => "FullHouse", 323..=1599 => "Flush", 1600..=1609 => "Straight",
+                  1610..=2467 => "Trips", 2468..=3325 => "TwoPair", 3326..=6185 => "Pair", _ => "HighCard" }
+}
+
+pub fn class7_fp(cards: &[Card; 7]) -> u16 {
+    let mut best = u16::MAX;
+    for i in 0..7 { for j in (i + 1)..7 {
+        let five: Vec<Card> = (0..7).filter(|k| *k != i && *k != j).map(|k| cards[k]).collect();
+        best = best.min(class5_fp(&five));
+    } }
+    best
+}
+
+pub fn check_eval(cards: &[Card; 7], mode: &str) -> Result<String, String> {
+    let want = class7_fp(cards);
+    let c = *cards;
+    let got = match std::panic::catch_unwind(move || { let h = MadeHand::from(c); (h.power_index(), format!("{:?}", h.hand_type())) }) { Ok(x) => x, Err(_) => return Err(format!("{:?} panicked", cards)) };
+    if mode != "c07" && got.0 != want { return Err(format!("{:?} evaluates to {} instead of {}", cards, got.0, want)); }
+    if mode != "c01" && got.1 != category_fp(want) { return Err(format!("{:?} (index {}) reports {} instead of {}", cards, want, got.1, category_fp(want))); }
+    Ok(format!("{:?} -> {} {}", cards, got.0, got.1))
+}
+
+/// structured hands first (every rank pattern x suited / unsuited shapes), then random seven-card sets in random order
+pub fn eval_search(seed: u64, n: u64, mode: &str) -> i32 {
+    std::panic::set_hook(Box::new(|_| {}));
+    let mut rng = Rng(seed ^ 0xE7A1);
+    let mut tried = 0u64;
+    let mut probe = |cards: [Card; 7], tried: &mut u64| -> bool {
+        *tried += 1;
+        if let Err(e) = check_eval(&cards, mode) {
+            let d: Vec<String> = cards.iter().map(|c| c.to_string()).collect();
+            println!("WITNESS eval-check {} {} :: {}", mode, d.join(" "), e);
+            println!("SEARCH tried={} found=1", *tried);
+            return true;
+        }
+        false
+    };
+    // all rank multisets of size 7 (49,205 of them), each in three suitings: as flush-free as possible, a five-card flush on
+    // the top / bottom five distinct ranks where the multiset allows it, and seven suited cards when all ranks differ
+    let mut q = [0usize; 13];
+    fn rec(pos: usize, left: usize, q: &mut [usize; 13], out: &mut Vec<[usize; 13]>) {
+        if pos == 13 { if left == 0 { out.push(*q); } return; }
+        for m in 0..=left.min(4) { q[pos] = m; rec(pos + 1, left - m, q, out); }
+        q[pos] = 0;
+    }
+    let mut all = vec![];
+    rec(0, 7, &mut q, &mut all);
+    for q in all.iter() {
+        let ranks: Vec<usize> = (0..13).flat_map(|r| std::iter::repeat(r).take(q[r])).collect();
+        let distinct: Vec<usize> = (0..13).filter(|r| q[*r] > 0).collect();
+        // suiting A: copy number of the rank gives the suit, rotated by the rank (few accidental flushes)
+        let mut seen = [0usize; 13];
+        let mut a = vec![];
+        for r in ranks.iter() { a.push(Card::new(RANKS[*r], SUITS[(seen[*r] + *r) % 4])); seen[*r] += 1; }
+        let mut arr: [Card; 7] = [a[0], a[1], a[2], a[3], a[4], a[5], a[6]];
+        for i in 0..6 { let j = i + rng.below((7 - i) as u64) as usize; arr.swap(i, j); }
+        if probe(arr, &mut tried) { return 1; }
+        // suitings B / C: the first copy of the top (bottom) five distinct ranks in spades, everything else off-suit
+        if distinct.len() >= 5 {
+            for pick in [0usize, distinct.len() - 5, distinct.len().saturating_sub(6).min(1)] {
+                let flush_ranks: Vec<usize> = distinct[pick..(pick + 5).min(distinct.len())].to_vec();
+                let mut seen = [0usize; 13];
+                let mut b = vec![];
+                for r in ranks.iter() {
+                    let s = if seen[*r] == 0 && flush_ranks.contains(r) { 0 } else { 1 + (seen[*r] + *r) % 3 };
+                    b.push(Card::new(RANKS[*r], SUITS[s])); seen[*r] += 1;
+                }
+                // distinctness: a rank with 4 copies would need 3 off-suit copies in 3 suits: fine; with the spade copy first
+                let mut ok = true;
+                for i in 0..7 { for j in (i + 1)..7 { if b[i] == b[j] { ok = false; } } }
+                if !ok { continue; }
+                let mut arr: [Card; 7] = [b[0], b[1], b[2], b[3], b[4], b[5], b[6]];
+                for i in 0..6 { let j = i + rng.below((7 - i) as u64) as usize; arr.swap(i, j); }
+                if probe(arr, &mut tried) { return 1; }
+            }
+        }
+        if distinct.len() >= 6 {
+            // six or seven cards of one suit
+            let mut seen = [0usize; 13];
+            let mut c = vec![];
+            for r in ranks.iter() { let s = if seen[*r] == 0 { 2 } else { (seen[*r] + 2) % 4 }; c.push(Card::new(RANKS[*r], SUITS[s])); seen[*r] += 1; }
+            let arr: [Card; 7] = [c[0], c[1], c[2], c[3], c[4], c[5], c[6]];
+            if probe(arr, &mut tried) { return 1; }
+        }
+    }
+    for _ in 0..n {
+        let mut deck: Vec<usize> = (0..52).collect();
+        for i in 0..7 { let j = i + rng.below((52 - i) as u64) as usize; deck.swap(i, j); }
+        let arr: [Card; 7] = [card(deck[0]), card(deck[1]), card(deck[2]), card(deck[3]), card(deck[4]), card(deck[5]), card(deck[6])];
+        if probe(arr, &mut tried) { return 1; }
+    }
+    println!("SEARCH tried={} found=0", tried);
+    0
+}
+
+// ---------------------------------------------------------------------------------------------
+// C16, last clause: the per-scope results of calculate_scopes(k) add up to the single-threaded result
+pub fn check_c16sum(k: u32, flop: &[Card; 3], ranges: &Vec<HandRange>) -> Result<String, String> {
+    let full = run_scope(flop, ranges, None)?.len();
+    let scopes = match std::panic::catch_unwind(|| crate::scope::calculate_scopes(k)) { Ok(s) => s, Err(_) => return Err(format!("calculate_scopes({}) panicked", k)) };
+    let mut sum = 0usize;
+    for s in scopes.iter() {
+        let (f, t) = ((s.turn_from, s.river_from), (s.turn_to, s.river_to));
+        sum += run_scope(flop, ranges, Some((f.0, f.1, t.0, t.1))).map_err(|e| format!("scope {:?}->{:?} of calculate_scopes({}): {}", f, t, k, e))?.len();
+    }
+    if sum != full { return Err(format!("the {} scopes of calculate_scopes({}) yield {} showdowns in total, the unscoped run {}", scopes.len(), k, sum, full)); }
+    Ok(format!("{} scopes, {} showdowns", scopes.len(), full))
+}
+
+pub fn c16sum_search(seed: u64, n: u64) -> i32 {
+    std::panic::set_hook(Box::new(|_| {}));
+    let mut rng = Rng(seed ^ 0xC16);
+    let mut tried = 0u64;
+    for it in 0..3 {
+        let mut case = gen_iter_case(&mut rng, 1 + it * 7);
+        if case.ranges.iter().any(|r| r.len() > 3) || case.ranges.len() > 2 { case.ranges = vec![vec![(CardPair::new(card(0), card(5)), 1.0)], vec![(CardPair::new(card(9), card(14)), 0.5), (CardPair::new(card(20), card(30)), 1.0)]]; case.flop = [card(51), card(50), card(49)]; }
+        let ranges: Vec<HandRange> = case.ranges.iter().map(|r| r.iter().cloned().collect()).collect();
+        for k in 1..=(n.min(200) as u32) {
+            tried += 1;
+            if let Err(e) = check_c16sum(k, &case.flop, &ranges) {
+                let d = case.describe();
+                println!("WITNESS c16sum {} {} :: {}", k, d.trim_start_matches("iter "), e);
+                println!("SEARCH tried={} found=1", tried);
+                return 1;
+            }
+        }
+    }
+    println!("SEARCH tried={} found=0", tried);
+    0
+}
+
+// ---------------------------------------------------------------------------------------------
+// C08 with many wide ranges: the number of deals per board exceeds 2^32 (or 2^64); the run cannot be drained, but
+// building the iterator and taking the first showdowns must return normally (debug build: overflow checks on)
+pub fn check_c08big(players: usize, combos: usize) -> Result<String, String> {
+    let flop = [card(51), card(50), card(49)];
+    let mut all: Vec<CardPair> = vec![];
+    for a in 0..49 { for b in (a + 1)..49 { all.push(CardPair::new(card(a), card(b))); } }
+    // combos over the 47 cards that are neither on the flop nor the first turn / river, a different slice per player
+    let inner: Vec<CardPair> = all.iter().filter(|c| c[0] != card(0) && c[0] != card(1) && c[1] != card(0) && c[1] != card(1)).cloned().collect();
+    let ranges: Vec<HandRange> = (0..players).map(|i| (0..combos.min(inner.len())).map(|k| (inner[(k * 7 + i * 131) % inner.len()], 1.0f32)).collect()).collect();
+    let board = [Some(flop[0]), Some(flop[1]), Some(flop[2]), None, None];
+    let (tx, rx) = std::sync::mpsc::channel();
+    let h = std::thread::Builder::new().stack_size(2 * 1024 * 1024).spawn(move || {
+        let mut e = FlopExhaustiveEvaluator::new(&board, &ranges);
+        e.scope(0, 1, 0, 2);
+        let n = e.into_iter().take(3).count();
+        let _ = tx.send(n);
+    }).unwrap();
+    // the map order of the ranges decides how long the first legal deal takes to reach (blocked deals are stepped through
+    // one by one): a timeout is inconclusive, only a panic is a failure
+    match rx.recv_timeout(std::time::Duration::from_secs(4)) {
+        Ok(n) => { let _ = h.join(); Ok(format!("{} players x {} combos: first {} showdowns returned", players, combos, n)) }
+        Err(std::sync::mpsc::RecvTimeoutError::Timeout) => Ok(format!("{} players x {} combos: inconclusive (still stepping through blocked deals after 4 s, no panic)", players, combos)),
+        Err(_) => Err(format!("{} players x {} combos: panic while building the iterator or taking the first showdowns", players, combos)),
+    }
+}
+
+pub fn c08big_search() -> i32 {
+    std::panic::set_hook(Box::new(|_| {}));
+    let cases = [(4usize, 256usize), (5, 100), (4, 1081), (8, 256), (7, 1000), (9, 255)];
+    for (i, (p, c)) in cases.iter().enumerate() {
+        if let Err(e) = check_c08big(*p, *c) {
+            println!("WITNESS c08big {} {} :: {}", p, c, e);
+            println!("SEARCH tried={} found=1", i + 1);
+            return 1;
+        }
+    }
+    println!("SEARCH tried={} found=0", cases.len());
     0
 }
 
